@@ -10,9 +10,15 @@ freedom) is builder `bounds`' `Emboss/Properties/C04Arith.lean`, restated here a
 Layer 3 (sanitized correspondence) is harness/corr/C04.py.  Real memory safety is claimed only as
 far as the model and the sanitizers reach (pointer formation, aliasing, the compiler's view of UB
 are outside both): level *partial*.
+
+Round 3, text layer: `C04_text_buffer_in_bounds` — the scratch array of `WriteIntegerToTextStream`
+(emboss_text_util.h) is never indexed outside `[0, size)`, for every value of every integer type,
+base and grouping; size formula and offsets regenerated from the header text
+(Generated/TextBuf.lean), control flow = `Emboss.Text.writeInt` (tied by C06's correspondence).
 -/
 import Emboss.Model.Window
 import Emboss.Properties.C04Arith
+import Emboss.Lemmas.TextBufBound
 namespace Emboss.View
 
 theorem Window.sub_safe {w : Window} {total : Nat} (h : w.safe total) (offset size : Nat) :
@@ -159,3 +165,64 @@ example :
   decide
 
 end Emboss.View
+
+/-! ### text layer: the scratch array of `WriteIntegerToTextStream` (round 3) -/
+
+namespace Emboss.Text
+open Emboss.Generated.TextBuf
+
+/-- `WriteIntegerToTextStream<T>(x, stream, base, grouping)` (runtime/cpp/emboss_text_util.h)
+fills `char buffer[buffer_size]` from the right through `next_char` and hands
+`buffer + 1 + next_char` to `stream->Write`.  For **every** integer type `T` the function is
+instantiated with, every value `x` of that type, every base and both grouping settings, every
+index the function touches — the `'\0'` store, each `buffer[next_char] = c` (so also each
+`EMBOSS_DCHECK_GE(next_char, 0)`), and the start of the final read — lies in `[0, buffer_size)`.
+
+* `bufferSize`, the NUL index and the initial `next_char` are **regenerated from the header text**
+  on every run (harness/translate/textbuf.py → Generated/TextBuf.lean): shrinking the formula
+  (seeded change C04-m1: `+ 3` → `+ 2`) makes this proof fail and re-opens the obligation.
+* `writeIntTrace` (Model/TextBuf.lean) mirrors the index arithmetic statement by statement;
+  `writeIntTrace_eq` shows it is `(writeInt T x base grouping).length` consecutive stores, and
+  `writeInt` is compared with the real function on every run of C06 (`model_c06`).
+* Assumes `CHAR_BIT = 8` (`T.bits = sizeof(T) * CHAR_BIT`) and that `int` holds the size (≤ 75). -/
+theorem C04_text_buffer_in_bounds (T : IntTy) (x : Int) (base : Base) (grouping : Bool)
+    (hx : T.InRange x) :
+    ∀ i ∈ writeIntTrace (bufferSize T.bits) T x base grouping,
+      0 ≤ i ∧ i < (bufferSize T.bits : Int) :=
+  writeIntTrace_in_bounds T x base grouping hx
+
+/-- The trace really is what the C++ does with `next_char`: NUL store at `size - 1`, then exactly
+one store per character of `writeInt` at `size - 2, size - 3, …`, then the read start. -/
+theorem C04_text_buffer_trace_is_writeInt (size : Nat) (T : IntTy) (x : Int) (base : Base)
+    (grouping : Bool) :
+    writeIntTrace size T x base grouping =
+      ((size : Int) - 1) ::
+        ((List.range (writeInt T x base grouping).length).map
+            (fun (k : Nat) => (size : Int) - 2 - (k : Int)) ++
+          [1 + ((size : Int) - 2 - ((writeInt T x base grouping).length : Int))]) := by
+  have hn : nulBack = 1 := by decide
+  have hf : firstBack = 2 := by decide
+  rw [writeIntTrace_eq, hn, hf]
+  rfl
+
+/-- non-vacuity / tests (`decide`, concrete inputs): the hypotheses are met by the extreme value
+of every width; the bound is **attained** — `-0b10000000` needs all 12 chars of the `int8_t`
+array, first store at index 10, last at 0, read from 0; for `int64_t` 75 of 75. -/
+example :
+    IntTy.i8.InRange (-128) ∧ IntTy.u64.InRange 18446744073709551615 ∧
+    bufferSize IntTy.i8.bits = 12 ∧ bufferSize IntTy.i64.bits = 75 ∧
+    writeIntTrace 12 .i8 (-128) .b2 true = [11, 10, 9, 8, 7, 6, 5, 4, 3, 2, 1, 0, 0] ∧
+    writeIntTrace 12 .i8 0 .b10 false = [11, 10, 10] ∧
+    writeIntTrace 12 .u8 255 .b16 true = [11, 10, 9, 8, 7, 7] ∧
+    (writeIntTrace 75 .i64 (-9223372036854775808) .b2 true).getLast? = some 0 ∧
+    (writeIntTrace 75 .i64 (-9223372036854775808) .b2 true).length = 76 := by decide +kernel
+
+/-- Witness (a test by evaluation, labelled as such) that the size is tight: with an array one
+char shorter — what seeded change C04-m1 produces — `int8_t`, `-128`, base 2, grouping stores
+`'-'` at index −1 (the real code: `EMBOSS_DCHECK_GE(next_char, 0)` abort, or a stack write out of
+bounds in NDEBUG builds). -/
+theorem C04_text_buffer_tight_counterexample :
+    (-1 : Int) ∈ writeIntTrace (bufferSize IntTy.i8.bits - 1) .i8 (-128) .b2 true ∧
+    IntTy.i8.InRange (-128) := by decide +kernel
+
+end Emboss.Text
